@@ -6,6 +6,7 @@ import Oracle.Util
                                                                     → ok <hex group>@<ts>=<num>/<den> … (sorted)
    fields ::= - | <hex>,<hex>,…      series ::= <labels>@<pts>
    labels ::= - | <hexk>=<hexv>,…    pts ::= - | <ts>:<int>,…
+   agg2 <fn1> by|without <fields1> <fn2> by|without <fields2> step=<s> M=<hex name> S=…   (fn1 ≠ avg)
    avg values are printed after float64 rounding of the quotient (`f64div`), everything else is exact. -/
 namespace Oracle.C09
 open SigModel.Promql Oracle
@@ -81,9 +82,36 @@ def agg (args : List String) : String :=
     | _, _, _, _, _, _ => "bad-op"
   | _ => "bad-op"
 
+/-- agg2 <fn1> by|without <fields1> <fn2> by|without <fields2> step=<s> M=<hex> S=…  : AggregateResults
+with the first aggregation, then ApplyAggregationToResults with the second (fn1 ≠ avg: the intermediate
+values stay integers) -/
+def agg2 (args : List String) : String :=
+  match args with
+  | [fn1, m1, f1, fn2, m2, f2, st, nm, ss] =>
+    match parseFn fn1, parseMode m1, parseFields f1, parseFn fn2, parseMode m2, parseFields f2 with
+    | some fn1, some w1, some fs1, some fn2, some w2, some fs2 =>
+      match (kvArg "step" st).bind String.toNat?, (kvArg "M" nm).bind hexBytes?, kvArg "S" ss with
+      | some step, some name, some ss =>
+        if step = 0 ∨ step ≥ 4294967296 ∨ fn1 = .avg then "bad-op" else
+        let series := if ss = "-" then some [] else (ss.splitOn "|").mapM parseSeries
+        match series with
+        | none => "bad-op"
+        | some series =>
+          let q1 : Query := { fn := fn1, without := w1, fields := fs1, step := step, name := name }
+          let q2 : Query := { fn := fn2, without := w2, fields := fs2, step := step, name := name }
+          let toks := (results2 q2 (results q1 series)).map (fun (g, t, v) =>
+            let v' := if fn2 = .avg then f64div v.num v.den else v
+            s!"{bytesHex g}@{t}={showRat v'}")
+          let sorted := toks.mergeSort (fun a b => decide (a ≤ b))
+          String.intercalate " " ("ok" :: sorted)
+      | _, _, _ => "bad-op"
+    | _, _, _, _, _, _ => "bad-op"
+  | _ => "bad-op"
+
 def handle (cmd : String) (args : List String) : Option String :=
   match cmd with
   | "gkey" => some (gkey args)
   | "agg" => some (agg args)
+  | "agg2" => some (agg2 args)
   | _ => none
 end Oracle.C09
